@@ -21,7 +21,7 @@ from fractions import Fraction
 import common
 from common import coq_string, coq_list, coq_Q
 
-GEN_REQUIRES = ['From SFC.Base Require Import Res Expr.', 'From SFC.Gen Require Import Poly Expand Checker CaseDefs.']
+GEN_REQUIRES = ['From SFC.Base Require Import Res Expr.', 'From SFC.Gen Require Import Poly Expand Checker Fx CaseDefs.']
 
 
 # ----------------------------------------------------------------------------------------------
